@@ -80,6 +80,58 @@ type adapter[K any, V any] struct {
 	from  func(K) []byte
 	vc    ValCodec[V]
 	reuse func(K) // what the caller does with its key argument after the call returned (nil: nothing)
+	// []byte-keyed trees: keys handed out by the tree (and, for a pass-through codec, the inserted
+	// slices) are remembered, and some lookups pass a re-slice of such a slice instead of a private
+	// copy - `for k := range t.All() { t.Delete(k[:3]) }` is ordinary user code.
+	handed func(K)
+	alias  func([]byte) (K, bool)
+}
+
+// arg builds the key argument of a lookup: a private copy, or (aliased) a re-slice of memory
+// the tree handed out, which the caller must not overwrite.
+func (a *adapter[K, V]) arg(k []byte) (K, bool) {
+	if a.alias != nil && !noAliasing {
+		if kk, ok := a.alias(k); ok {
+			return kk, true
+		}
+	}
+	return a.to(k), false
+}
+
+// noAliasing switches the bookkeeping off: it is unsynchronised state of the harness, which the
+// concurrent checks (C16) must not share between goroutines.
+var noAliasing bool
+
+// byteAliaser implements handed/alias for K = []byte.
+type byteAliaser struct {
+	ring  [][]byte
+	n     int
+	calls int
+}
+
+func (x *byteAliaser) handed(k []byte) {
+	if len(k) == 0 {
+		return
+	}
+	if len(x.ring) < 48 {
+		x.ring = append(x.ring, k)
+	} else {
+		x.ring[x.n%48] = k
+	}
+	x.n++
+}
+
+func (x *byteAliaser) alias(b []byte) ([]byte, bool) {
+	x.calls++
+	if x.calls%3 == 0 || len(b) == 0 {
+		return nil, false
+	}
+	for _, r := range x.ring {
+		if len(b) <= len(r) && bytes.Equal(r[:len(b)], b) {
+			return r[:len(b)], true
+		}
+	}
+	return nil, false
 }
 
 // done models a caller that reuses its key buffer as soon as the call is over
@@ -102,9 +154,11 @@ func (a *adapter[K, V]) Insert(k []byte, v int) {
 	a.done(kk)
 }
 func (a *adapter[K, V]) Search(k []byte) (int, bool) {
-	kk := a.to(k)
+	kk, aliased := a.arg(k)
 	v, ok := a.t.Search(kk)
-	a.done(kk)
+	if !aliased {
+		a.done(kk)
+	}
 	return a.back(v, ok), ok
 }
 func (a *adapter[K, V]) Move(from, to []byte) bool {
@@ -120,9 +174,11 @@ func (a *adapter[K, V]) Move(from, to []byte) bool {
 	return true
 }
 func (a *adapter[K, V]) Delete(k []byte) bool {
-	kk := a.to(k)
+	kk, aliased := a.arg(k)
 	ok := a.t.Delete(kk)
-	a.done(kk)
+	if !aliased {
+		a.done(kk)
+	}
 	return ok
 }
 func (a *adapter[K, V]) Size() int { return a.t.Size() }
@@ -138,6 +194,7 @@ func (a *adapter[K, V]) Minimum() ([]byte, int, bool) {
 	if !ok {
 		return nil, 0, false
 	}
+	a.note(k)
 	return a.from(k), a.vc.Back(v), true
 }
 func (a *adapter[K, V]) Maximum() ([]byte, int, bool) {
@@ -145,11 +202,17 @@ func (a *adapter[K, V]) Maximum() ([]byte, int, bool) {
 	if !ok {
 		return nil, 0, false
 	}
+	a.note(k)
 	return a.from(k), a.vc.Back(v), true
+}
+func (a *adapter[K, V]) note(k K) {
+	if a.handed != nil && !noAliasing {
+		a.handed(k)
+	}
 }
 func (a *adapter[K, V]) wrap(s func(yield func(K, V) bool)) Seq {
 	return func(yield func([]byte, int) bool) {
-		s(func(k K, v V) bool { return yield(a.from(k), a.vc.Back(v)) })
+		s(func(k K, v V) bool { a.note(k); return yield(a.from(k), a.vc.Back(v)) })
 	}
 }
 func (a *adapter[K, V]) All() Seq              { return a.wrap(a.t.All()) }
@@ -596,6 +659,11 @@ func encodeField(f *numKind, bits uint64) []byte {
 	default:
 		panic("unknown field type " + f.name)
 	}
+	// The result belongs to the caller, who may append to it (a codec that concatenates fields does):
+	// whatever spare capacity it has is written to here, as that append would.
+	for spare := b[len(b):cap(b)]; len(spare) > 0; spare = spare[1:] {
+		spare[0] = 0xA5
+	}
 	return b
 }
 
@@ -632,7 +700,11 @@ func decodeField(f *numKind, b []byte) uint64 {
 func (c tupleCodec) Transform(t Tuple) ([]byte, []byte) {
 	var b []byte
 	for i, f := range c.k.fields {
-		b = append(b, encodeField(f, t.N[i])...)
+		if e := encodeField(f, t.N[i]); i == 0 {
+			b = e // the first field's encoding, as the library returned it; the others are appended to it
+		} else {
+			b = append(b, e...)
+		}
 	}
 	if c.k.hasStr {
 		_, s := art.AlphabeticalOrderKey[string]{}.Transform(t.S)
@@ -721,8 +793,9 @@ func NewSubject[V any](k Kind, vc ValCodec[V]) Subject {
 			return &adapter[string, V]{t: art.NewAlphaSortedTree[string, V](), vc: vc,
 				to: func(b []byte) string { return string(b) }, from: func(s string) []byte { return []byte(s) }}
 		}
+		x := &byteAliaser{}
 		return &adapter[[]byte, V]{t: art.NewAlphaSortedTree[[]byte, V](), vc: vc,
-			to: clone, from: clone, reuse: scribble}
+			to: clone, from: clone, reuse: scribble, handed: x.handed, alias: x.alias}
 	case *collKind:
 		c := CollatorConfigs[kk.cfg]() // the tree's own collator instance
 		switch kk.ktype {
@@ -742,7 +815,8 @@ func NewSubject[V any](k Kind, vc ValCodec[V]) Subject {
 			} else {
 				t = art.NewCollationSortedTree[[]byte, V](art.WithCollator[[]byte, V](c))
 			}
-			return &adapter[[]byte, V]{t: t, vc: vc, to: clone, from: clone, reuse: scribble}
+			x := &byteAliaser{}
+			return &adapter[[]byte, V]{t: t, vc: vc, to: clone, from: clone, reuse: scribble, handed: x.handed, alias: x.alias}
 		default: // runes: only the default collator can be configured (WithCollator is declared for chars)
 			return &adapter[[]rune, V]{t: art.NewCollationSortedTree[[]rune, V](), vc: vc,
 				to:   func(b []byte) []rune { return []rune(string(b)) },
@@ -750,7 +824,16 @@ func NewSubject[V any](k Kind, vc ValCodec[V]) Subject {
 		}
 	case *rawCmpKind:
 		// no buffer reuse here: with the pass-through codec the stored keys are the caller's slices
-		return &adapter[[]byte, V]{t: art.NewCompoundTree[[]byte, V](art.AlphabeticalOrderKey[[]byte]{}), vc: vc, to: clone, from: clone}
+		x := &byteAliaser{}
+		// the inserted slices are what the tree refers to with this codec: they count as handed out too
+		return &adapter[[]byte, V]{t: art.NewCompoundTree[[]byte, V](art.AlphabeticalOrderKey[[]byte]{}), vc: vc,
+			to: func(b []byte) []byte {
+				c := clone(b)
+				if !noAliasing {
+					x.handed(c)
+				}
+				return c
+			}, from: clone, handed: x.handed, alias: x.alias}
 	case *compoundKind:
 		return &adapter[Tuple, V]{t: art.NewCompoundTree[Tuple, V](tupleCodec{kk}), vc: vc,
 			to: kk.toTuple, from: kk.fromTuple}
